@@ -473,6 +473,17 @@ def oracle_c11(case, steps):
                 want = entry_keys(op[2])
                 if [key for key, _ in new[i:i + k]] != want:
                     return ('%s: inserted routes %s, the entry declares %s in this order' % (what, new[i:i + k], want), 'splice-order')
+            if op[0] == 'embed' and str(op[3]) in prev_world:
+                want = [r[0] for r in prev_world[str(op[3])]]        # every route of the embedded application, in its order
+                if [key for key, _ in new[i:i + k]] != want:
+                    return ('%s: embedding application %s inserted routes %s; it has the routes %s' % (what, op[3], new[i:i + k], want),
+                            'embed-incomplete')
+            # the routing TABLE is what answers: the application must respond like one freshly declared with this very table
+            if 'flat' in st:
+                for a, b2 in zip(st['probes'][tid], st['flat']):
+                    if a != b2:
+                        return ('%s: %s %s on application %s answers %s although its routing table, declared afresh, answers %s'
+                                % (what, a[0], a[1], tid, a[2:], b2[2:]), 'table-vs-responses')
         prev_world = st['world']
         prev_probes = st['probes']
     return None
